@@ -1,19 +1,14 @@
-import PGM.Driver.C14
-import PGM.Driver.C15
-import PGM.Driver.C12
+import PGM.Driver.C07
 /-!
 Line-protocol driver: one JSON request per input line, one JSON response per output line.
-Run with `lake env lean --run Main.lean` or as the compiled `pgmdriver`.
+Run with the compiled `pgmgen` (handlers over the py2lean-generated definitions only).
 -/
 open Lean PGM PGM.Driver
 
 def dispatch (req : Json) : Except String Json := do
   let op ← (← req.getObjVal? "op").getStr?
   match op with
-  | "factor" => handleC14 req
-  | "dataset" => handleDataset req
-  | "domain" => handleDomain req
-  | "jt" => handleJT req
+  | "cdp" => handleCdp req
   | _ => throw s!"unknown op {op}"
 
 def respond (line : String) : String :=
